@@ -24,8 +24,10 @@ BOUND = (
     'three author pairings incl. same-task and same-alg-name) x 2 state '
     'vectors x 2 values, runs in {1,2,3}, generated picklable contents; every '
     'load (and an audit of all identities/version configurations seen) is '
-    'compared with a dictionary model; all histories of length <= 2 over a '
-    '24-operation core alphabet are enumerated, longer ones are sampled'
+    'compared with a dictionary model; thorough tier: all histories of length '
+    '<= 2 over a 24-operation core alphabet (x 3 author pairings) enumerated + '
+    '6000 seeded random histories of 3..6 operations; quick tier: the length-1 '
+    'core, the length-2 core histories around one fixed update and 24 random ones'
 )
 
 CLAUSES = [
